@@ -226,6 +226,11 @@ def _run_task(args):
         part = mod.parts(tier)[part_index]
         ctx = Ctx(prop, part.name, tier, known)
         budget = part.budget_s
+        if tier == "thorough" and budget is not None:
+            # wall budget per part and shard in the thorough tier (seconds);
+            # VERIF_THOROUGH_BUDGET=0 removes the cap (case counts then decide)
+            cap = float(os.environ.get("VERIF_THOROUGH_BUDGET", "300"))
+            budget = min(budget, cap) if cap > 0 else budget
         state = {"late": 0}
 
         def body(case):
